@@ -2338,8 +2338,10 @@ impl VmGreenThread {
             Instr::ArrayPop(dest, reg) => {
                 let val = self.load_offset_or_top(reg);
                 let arr = unsafe { val.get_array_mut(self) };
-                // TODO: what if array is empty?? we're just unwrapping here...
-                let lvalue = arr.data.pop().unwrap();
+                let Some(lvalue) = arr.data.pop() else {
+                    self.error = Some(self.make_error(VmErrorKind::ArrayOutOfBounds).into());
+                    return false;
+                };
                 self.store_offset_or_top(dest, lvalue);
             }
             Instr::ConcatStrings(dest, reg1, reg2) => {
